@@ -74,7 +74,35 @@ def load_seeded():
     return out
 
 
+def run_neutral(argv):
+    """Semantics-preserving edits: every listed property's quick check must stay quiet (exit 0)."""
+    items = json.load(open(os.path.join(VERIF, "drills", "neutral.json")))
+    names = [a for a in argv if not a.startswith("--")]
+    bad = 0
+    total = 0
+    for d in items:
+        if names and d["name"] not in names:
+            continue
+        for prop in d["properties"]:
+            dd = dict(d)
+            dd["property"] = prop
+            status, info = run_one(dd)
+            total += 1
+            # for a neutral edit "MISSED" (exit 0, no VIOLATION) is the expected outcome
+            ok = status == "MISSED"
+            print("[neutral] %-36s %s %s" % (d["name"], prop, "QUIET" if ok else "ALARM(" + status + ")"))
+            if not ok:
+                bad += 1
+                for l in info.splitlines()[:12]:
+                    print("        " + l)
+            sys.stdout.flush()
+    print("[neutral] %d/%d quiet" % (total - bad, total))
+    return 1 if bad else 0
+
+
 def main(argv):
+    if "--neutral" in argv:
+        return run_neutral(argv)
     drills = load_seeded() if "--seeded" in argv else load()
     if "--list" in argv:
         for d in drills:
